@@ -1,1 +1,750 @@
-(* Proofs/Banded.v -- stub, to be filled in *)
+(* Proofs/Banded.v -- lemmas about Model/Banded.v: index map, dense twin, matrix-vector product. *)
+From Coq Require Import List Arith Lia ZArith Bool Ring_theory Ring Field_theory.
+From OV Require Import Base.Panic Base.Arith Model.Vector Model.Matrix Model.Banded.
+Import ListNotations.
+Local Open Scope nat_scope.
+
+(* ------------------------------------------------------------------ index map *)
+
+Lemma in_band_iff m1 m2 i j : in_band m1 m2 i j = true <-> (i <= j + m1 /\ j <= i + m2).
+Proof.
+  unfold in_band, out_of_band. rewrite negb_true_iff, orb_false_iff, !Nat.ltb_ge. lia.
+Qed.
+
+Lemma out_of_band_iff m1 m2 i j : out_of_band m1 m2 i j = true <-> (i + m2 < j \/ j + m1 < i).
+Proof. unfold out_of_band. rewrite orb_true_iff, !Nat.ltb_lt. tauto. Qed.
+
+Lemma band_slot_range m1 m2 i j : in_band m1 m2 i j = true -> band_slot m1 i j < m1 + m2 + 1.
+Proof. rewrite in_band_iff. unfold band_slot. lia. Qed.
+
+Lemma band_slot_inj m1 m2 i j j' :
+  in_band m1 m2 i j = true -> in_band m1 m2 i j' = true ->
+  band_slot m1 i j = band_slot m1 i j' -> j = j'.
+Proof. rewrite !in_band_iff. unfold band_slot. lia. Qed.
+
+(* the slot of an in-band pair determines the column: j = i + s - m1 *)
+Lemma band_slot_col m1 m2 i j : in_band m1 m2 i j = true -> j + m1 = i + band_slot m1 i j.
+Proof. rewrite in_band_iff. unfold band_slot. lia. Qed.
+
+(* flat index of (row, slot) inside the n x mm compact buffer *)
+Lemma flat_lt n mm i s : i < n -> s < mm -> i * mm + s < n * mm.
+Proof. intros. nia. Qed.
+
+Lemma flat_inj mm i s i' s' : s < mm -> s' < mm -> i * mm + s = i' * mm + s' -> i = i' /\ s = s'.
+Proof.
+  intros Hs Hs' E.
+  assert (Hi : i = i').
+  { apply (f_equal (fun x => x / mm)) in E.
+    rewrite !Nat.div_add_l in E by lia. rewrite !Nat.div_small in E by lia. lia. }
+  subst. split; auto. lia.
+Qed.
+
+Section BandProofs.
+Context {A : Arith}.
+Notation T := (T A).
+Notation matrix := (matrix A).
+Notation banded := (banded A).
+
+Definition wfM (m : matrix) : Prop := length (buf m) = rows m * cols m.
+
+(* well-formed banded matrix: what every constructor of the public API establishes *)
+Definition wfB (B : banded) : Prop :=
+  wfM (compact B) /\ rows (compact B) = bn B /\ cols (compact B) = bm1 B + bm2 B + 1.
+
+(* raw slot of the compact storage *)
+Definition cslot (B : banded) (i s : nat) : T := nth (i * (bm1 B + bm2 B + 1) + s) (buf (compact B)) zero.
+
+(* the dense twin: in-band entries of the storage, zero elsewhere (only ever used with i, j < n) *)
+Definition dense_entry (B : banded) (i j : nat) : T :=
+  if in_band (bm1 B) (bm2 B) i j then cslot B i (band_slot (bm1 B) i j) else zero.
+
+(* D . v  for the dense twin *)
+Definition dense_mulv (B : banded) (v : list T) : list T :=
+  map (fun i => sum_n (bn B) (fun j => mul (dense_entry B i j) (nth j v zero))) (seq 0 (bn B)).
+
+(* two banded matrices of the same sizes that agree on every slot that lies inside the matrix
+   (padding slots -- column i + s - m1 outside 0..n -- are unconstrained) *)
+Definition same_in_matrix_slots (B B' : banded) : Prop :=
+  wfB B' /\ bn B' = bn B /\ bm1 B' = bm1 B /\ bm2 B' = bm2 B /\
+  forall i j, i < bn B -> j < bn B -> in_band (bm1 B) (bm2 B) i j = true ->
+    cslot B' i (band_slot (bm1 B) i j) = cslot B i (band_slot (bm1 B) i j).
+
+Lemma band_new_wf n m1 m2 (x : T) : wfB (band_new n m1 m2 x).
+Proof. unfold wfB, wfM, band_new, mat_new; cbn. now rewrite repeat_length. Qed.
+
+Lemma mget_ok (B : banded) i s :
+  wfB B -> i < bn B -> s < bm1 B + bm2 B + 1 -> mget (compact B) i s = Ok (cslot B i s).
+Proof.
+  intros (Hwf & Hr & Hc) Hi Hs. unfold mget, cslot. rewrite Hc.
+  apply rd_ok. rewrite Hwf, Hr, Hc. now apply flat_lt.
+Qed.
+
+(* element access = dense twin on the band, refused outside it *)
+Lemma band_get_spec (B : banded) i j :
+  wfB B -> i < bn B -> j < bn B ->
+  band_get B i j = if in_band (bm1 B) (bm2 B) i j then Ok (dense_entry B i j) else Panic Guard.
+Proof.
+  intros Hwf Hi Hj. unfold band_get, dense_entry, in_band.
+  destruct (out_of_band (bm1 B) (bm2 B) i j) eqn:E; cbn; auto.
+  apply mget_ok; auto. apply band_slot_range. unfold in_band. now rewrite E.
+Qed.
+
+End BandProofs.
+
+(* ------------------------------------------------------------------ list update helpers *)
+
+Lemma upd_list_same {X} (l : list X) i d : i < length l -> upd_list l i (nth i l d) = l.
+Proof.
+  revert i; induction l as [|h t IH]; intros [|i] H; cbn in *; try lia; auto.
+  f_equal. apply IH. lia.
+Qed.
+
+Lemma upd_list_twice {X} (l : list X) i a b : upd_list (upd_list l i a) i b = upd_list l i b.
+Proof. revert i; induction l as [|h t IH]; intros [|i]; cbn; auto. now rewrite IH. Qed.
+
+Lemma upd_list_app_mid {X} (l1 l2 : list X) x y : upd_list (l1 ++ x :: l2) (length l1) y = l1 ++ y :: l2.
+Proof. induction l1 as [|h t IH]; cbn; auto. now rewrite IH. Qed.
+
+Lemma upd_list_app_mid' {X} (l1 l2 : list X) x y i :
+  length l1 = i -> upd_list (l1 ++ x :: l2) i y = l1 ++ y :: l2.
+Proof. intros <-. apply upd_list_app_mid. Qed.
+
+(* ------------------------------------------------------------------ sums *)
+
+Section Sums.
+Context {A : Arith}.
+Notation T := (T A).
+
+(* what `acc += t j` for j = lo, lo+1, ... computes, in the code's order *)
+Fixpoint acc_from (x : T) (len lo : nat) (t : nat -> T) : T :=
+  match len with 0 => x | S l => acc_from (add x (t lo)) l (S lo) t end.
+
+Lemma acc_from_snoc x len lo t :
+  acc_from x (S len) lo t = add (acc_from x len lo t) (t (lo + len)).
+Proof.
+  revert x lo; induction len as [|len IH]; intros x lo.
+  - cbn. now rewrite Nat.add_0_r.
+  - change (acc_from x (S (S len)) lo t) with (acc_from (add x (t lo)) (S len) (S lo) t).
+    rewrite IH. cbn [acc_from]. now replace (S lo + len) with (lo + S len) by lia.
+Qed.
+
+Lemma acc_from_sum len lo t : acc_from zero len lo t = sum_n len (fun k => t (lo + k)).
+Proof.
+  induction len as [|len IH]; [reflexivity|].
+  rewrite acc_from_snoc, IH. reflexivity.
+Qed.
+
+(* the accumulate-into-slot loop: `for j in lo..lo+len { r[i] += t j }` *)
+Lemma acc_loop (i : nat) (t : nat -> T) (body : nat -> list T -> res (list T)) :
+  forall len lo (r : list T), i < length r ->
+  (forall j r, lo <= j < lo + len -> i < length r ->
+     body j r = Ok (upd_list r i (add (nth i r zero) (t j)))) ->
+  for_from len lo body r = Ok (upd_list r i (acc_from (nth i r zero) len lo t)).
+Proof.
+  induction len as [|len IH]; intros lo r Hi Hb.
+  - cbn. now rewrite upd_list_same.
+  - cbn [for_from acc_from]. rewrite Hb by (auto; lia). cbn [bind].
+    rewrite IH.
+    + rewrite nth_upd_list by auto. rewrite Nat.eqb_refl. now rewrite upd_list_twice.
+    + now rewrite upd_list_length.
+    + intros j r' Hj Hr'. apply Hb; auto. lia.
+Qed.
+
+Variable RL : RingLaws A.
+Add Ring ARing : (rl_ring A RL).
+
+Lemma radd_0_r (x : T) : add x zero = x. Proof. ring. Qed.
+Lemma rmul_0_l (x : T) : mul zero x = zero. Proof. ring. Qed.
+
+Lemma sum_n_zero n (g : nat -> T) : (forall j, j < n -> g j = zero) -> sum_n n g = zero.
+Proof.
+  induction n as [|n IH]; intros H; cbn; auto.
+  rewrite IH by (intros; apply H; lia). rewrite H by lia. ring.
+Qed.
+
+(* a vanishing prefix can be dropped *)
+Lemma sum_n_skip a b (g : nat -> T) :
+  (forall j, j < a -> g j = zero) -> sum_n (a + b) g = sum_n b (fun k => g (a + k)).
+Proof.
+  intros H. induction b as [|b IH].
+  - rewrite Nat.add_0_r. cbn. now apply sum_n_zero.
+  - replace (a + S b) with (S (a + b)) by lia. cbn. now rewrite IH.
+Qed.
+
+(* a vanishing suffix can be dropped *)
+Lemma sum_n_trunc a b (g : nat -> T) :
+  (forall j, a <= j < a + b -> g j = zero) -> sum_n (a + b) g = sum_n a g.
+Proof.
+  induction b as [|b IH]; intros H.
+  - now rewrite Nat.add_0_r.
+  - replace (a + S b) with (S (a + b)) by lia. cbn.
+    rewrite IH by (intros; apply H; lia). rewrite H by lia. ring.
+Qed.
+
+End Sums.
+
+(* ------------------------------------------------------------------ matrix-vector product *)
+
+Section MulV.
+Context {A : Arith}.
+Notation T := (T A).
+Notation banded := (banded A).
+Variable RL : RingLaws A.
+
+(* the row sum the code accumulates: slots lo .. hi-1 of row i, in order *)
+Definition row_lo (B : banded) (i : nat) : nat := bm1 B - i.
+Definition row_cnt (B : banded) (i : nat) : nat := Nat.min (bn B) (i + bm2 B + 1) - (i - bm1 B).
+Definition row_term (B : banded) (v : list T) (i s : nat) : T :=
+  mul (cslot B i s) (nth (s + i - bm1 B) v zero).
+
+Lemma row_sum_dense (B : banded) (v : list T) i :
+  i < bn B ->
+  sum_n (bn B) (fun j => mul (dense_entry B i j) (nth j v zero)) =
+  sum_n (row_cnt B i) (fun k => row_term B v i (row_lo B i + k)).
+Proof.
+  intros Hi. unfold row_cnt, row_lo, row_term.
+  set (n := bn B) in *. set (m1 := bm1 B). set (m2 := bm2 B).
+  set (jlo := i - m1). set (jhi := Nat.min n (i + m2 + 1)).
+  set (g := fun j => mul (dense_entry B i j) (nth j v zero)).
+  assert (Hn : n = (jlo + (jhi - jlo)) + (n - jhi)) by (unfold jlo, jhi; lia).
+  rewrite Hn at 1.
+  rewrite (sum_n_trunc RL).
+  2:{ intros j Hj. unfold g, dense_entry. fold m1 m2.
+      replace (in_band m1 m2 i j) with false.
+      - apply (rmul_0_l RL).
+      - symmetry. apply not_true_iff_false. rewrite in_band_iff. unfold jlo, jhi in *. lia. }
+  rewrite (sum_n_skip RL).
+  2:{ intros j Hj. unfold g, dense_entry. fold m1 m2.
+      replace (in_band m1 m2 i j) with false.
+      - apply (rmul_0_l RL).
+      - symmetry. apply not_true_iff_false. rewrite in_band_iff. unfold jlo in *. lia. }
+  apply sum_n_ext. intros k Hk. unfold g, dense_entry. fold m1 m2.
+  replace (in_band m1 m2 i (jlo + k)) with true.
+  2:{ symmetry. rewrite in_band_iff. unfold jlo, jhi in *. lia. }
+  unfold band_slot. fold m1.
+  replace (m1 + (jlo + k) - i) with (m1 - i + k) by (unfold jlo; lia).
+  replace (m1 - i + k + i - m1) with (jlo + k) by (unfold jlo; lia).
+  reflexivity.
+Qed.
+
+Lemma band_mul_ok (B : banded) (v : list T) :
+  wfB B -> length v = bn B -> band_mul B v = Ok (dense_mulv B v).
+Proof.
+  intros Hwf Hv. unfold band_mul. rewrite Hv, Nat.eqb_refl. cbn [negb].
+  set (n := bn B) in *.
+  set (rowsum := fun i => sum_n n (fun j => mul (dense_entry B i j) (nth j v zero))).
+  match goal with |- for_ 0 n ?body _ = _ => set (body0 := body) end.
+  destruct (for_inv (fun i r => r = map rowsum (seq 0 i) ++ repeat zero (n - i)) 0 n body0 (repeat zero n))
+    as (r & E & Hr).
+  - lia.
+  - cbn. now rewrite Nat.sub_0_r.
+  - intros i r Hi ->. unfold body0.
+    set (r0 := map rowsum (seq 0 i) ++ repeat zero (n - i)).
+    assert (Hlen1 : length (map rowsum (seq 0 i)) = i) by now rewrite map_length, seq_length.
+    assert (Hlen : length r0 = n).
+    { unfold r0. rewrite app_length, Hlen1, repeat_length. lia. }
+    assert (Hnth : nth i r0 zero = zero).
+    { unfold r0. rewrite app_nth2 by lia. rewrite Hlen1, Nat.sub_diag.
+      destruct (n - i) eqn:En; [lia|]. reflexivity. }
+    (* loop bounds as the code computes them (isize) *)
+    assert (Hlo : Z.to_nat (Z.max 0 (- (Z.of_nat i - Z.of_nat (bm1 B)))) = row_lo B i)
+      by (unfold row_lo; lia).
+    assert (Hhi : Z.to_nat (Z.min (Z.of_nat (bm1 B) + Z.of_nat (bm2 B) + 1)
+                              (Z.of_nat n - (Z.of_nat i - Z.of_nat (bm1 B)))) = row_lo B i + row_cnt B i)
+      by (unfold row_lo, row_cnt; fold n; lia).
+    rewrite Hlo, Hhi. unfold for_.
+    replace (row_lo B i + row_cnt B i - row_lo B i) with (row_cnt B i) by lia.
+    rewrite (acc_loop i (row_term B v i)).
+    + eexists; split; [reflexivity|].
+      rewrite Hnth, acc_from_sum, <- (row_sum_dense B v i) by exact (proj1 (conj (proj2 Hi) I)).
+      fold n. fold (rowsum i).
+      unfold r0. destruct (n - i) as [|d] eqn:En; [lia|]. cbn [repeat].
+      rewrite (upd_list_app_mid' _ _ _ _ i Hlen1).
+      rewrite seq_S, map_app. cbn [map]. rewrite <- app_assoc. cbn [app].
+      replace (n - S i) with d by lia. reflexivity.
+    + lia.
+    + intros s r' Hs Hr'.
+      assert (Hs' : s < bm1 B + bm2 B + 1) by (unfold row_lo, row_cnt in Hs; fold n in Hs; lia).
+      rewrite (rd_ok r' i zero) by auto. cbn [bind].
+      rewrite mget_ok by (auto; lia). cbn [bind].
+      assert (Hcol : Z.to_nat (Z.of_nat s + (Z.of_nat i - Z.of_nat (bm1 B))) = s + i - bm1 B)
+        by (unfold row_lo in Hs; lia).
+      rewrite Hcol.
+      rewrite (rd_ok v (s + i - bm1 B) zero).
+      2:{ rewrite Hv. unfold row_lo, row_cnt in Hs. fold n in Hs. lia. }
+      cbn [bind]. rewrite upd_ok by auto. reflexivity.
+  - rewrite E. f_equal. rewrite Hr, Nat.sub_diag. cbn. now rewrite app_nil_r.
+Qed.
+
+(* the dense twin does not see padding *)
+Lemma dense_entry_same (B B' : banded) i j :
+  same_in_matrix_slots B B' -> i < bn B -> j < bn B -> dense_entry B' i j = dense_entry B i j.
+Proof.
+  intros (_ & Hn & H1 & H2 & H) Hi Hj. unfold dense_entry. rewrite H1, H2.
+  destruct (in_band (bm1 B) (bm2 B) i j) eqn:E; auto.
+Qed.
+
+Lemma band_mul_spec_lemma (B : banded) (v : list T) :
+  wfB B -> length v = bn B ->
+  band_mul B v = Ok (dense_mulv B v) /\
+  forall B', same_in_matrix_slots B B' -> band_mul B' v = band_mul B v.
+Proof.
+  intros Hwf Hv. split; [now apply band_mul_ok|].
+  intros B' HS. pose proof HS as (Hwf' & Hn & _).
+  rewrite !band_mul_ok by (auto; congruence). f_equal.
+  unfold dense_mulv. rewrite Hn. apply map_ext_in. intros i Hi. apply in_seq in Hi.
+  apply sum_n_ext. intros j Hj. now rewrite (dense_entry_same B B') by (auto; lia).
+Qed.
+
+End MulV.
+
+(* ------------------------------------------------------------------ element-wise operators on the compact matrix *)
+
+(* row-major double loop with a position-indexed invariant *)
+Lemma double_loop {St} (P : nat -> St -> Prop) (r c : nat) (b : nat -> nat -> St -> res St) (s0 : St) :
+  P 0 s0 ->
+  (forall i j s, i < r -> j < c -> P (i * c + j) s -> exists s', b i j s = Ok s' /\ P (i * c + j + 1) s') ->
+  exists s', for_ 0 r (fun i s => for_ 0 c (b i) s) s0 = Ok s' /\ P (r * c) s'.
+Proof.
+  intros H0 Hstep.
+  apply (for_inv (fun i s => P (i * c) s) 0 r); [lia|exact H0|].
+  intros i s Hi HP.
+  destruct (for_inv (fun j s => P (i * c + j) s) 0 c (b i) s) as (s' & E & HP'); [lia| |  |].
+  - now rewrite Nat.add_0_r.
+  - intros j s1 Hj HP1. destruct (Hstep i j s1) as (s2 & E2 & HP2); [lia|lia|auto|].
+    exists s2; split; auto. now replace (i * c + S j) with (i * c + j + 1) by lia.
+  - exists s'; split; auto. now replace (S i * c) with (i * c + c) by lia.
+Qed.
+
+Section Elementwise.
+Context {A : Arith}.
+Notation T := (T A).
+Notation matrix := (matrix A).
+
+Lemma divmod_flat c i j : j < c -> (i * c + j) / c = i /\ (i * c + j) mod c = j.
+Proof.
+  intros Hj. split.
+  - rewrite Nat.div_add_l by lia. rewrite Nat.div_small by lia. lia.
+  - rewrite Nat.add_comm, Nat.mod_add by lia. now apply Nat.mod_small.
+Qed.
+
+(* mtab r c f: every element written once, in row-major order *)
+Lemma mtab_spec (r c : nat) (f : nat -> nat -> res T) (g : nat -> nat -> T) :
+  (forall i j, i < r -> j < c -> f i j = Ok (g i j)) ->
+  exists m, mtab r c f = Ok m /\ rows m = r /\ cols m = c /\ wfM m /\
+            forall i j, i < r -> j < c -> nth (i * c + j) (buf m) zero = g i j.
+Proof.
+  intros Hf. unfold mtab.
+  set (gk := fun k => g (k / c) (k mod c)).
+  destruct (double_loop (fun p (s : matrix) => rows s = r /\ cols s = c /\
+              buf s = map gk (seq 0 p) ++ repeat zero (r * c - p)) r c
+              (fun i j s => let* x := f i j in mset s i j x) (mat_new r c zero)) as (m & E & Hr & Hc & Hb).
+  - cbn. now rewrite Nat.sub_0_r.
+  - intros i j s Hi Hj (Hr & Hc & Hb). rewrite Hf by auto. cbn [bind]. unfold mset. rewrite Hc.
+    assert (Hp : i * c + j < r * c) by now apply flat_lt.
+    assert (Hl1 : length (map gk (seq 0 (i * c + j))) = i * c + j) by now rewrite map_length, seq_length.
+    rewrite upd_ok.
+    2:{ rewrite Hb, app_length, Hl1, repeat_length. lia. }
+    cbn [bind]. eexists; split; [reflexivity|]. cbn [rows cols buf]. repeat split; auto.
+    rewrite Hb. destruct (r * c - (i * c + j)) as [|d] eqn:Ed; [lia|]. cbn [repeat].
+    rewrite (upd_list_app_mid' _ _ _ _ _ Hl1).
+    replace (i * c + j + 1) with (S (i * c + j)) by lia.
+    rewrite seq_S, map_app. cbn [map]. rewrite <- app_assoc. cbn [app].
+    replace (r * c - S (i * c + j)) with d by lia.
+    f_equal. f_equal. cbn [Nat.add]. unfold gk. destruct (divmod_flat c i j Hj) as (-> & ->). reflexivity.
+  - exists m. split; [exact E|]. rewrite Nat.sub_diag, app_nil_r in Hb.
+    split; [auto|]. split; [auto|]. split.
+    + unfold wfM. now rewrite Hb, map_length, seq_length, Hr, Hc.
+    + intros i j Hi Hj. rewrite Hb.
+      assert (Hp : i * c + j < r * c) by now apply flat_lt.
+      rewrite (nth_indep _ zero (gk 0)) by now rewrite map_length, seq_length.
+      rewrite map_nth, seq_nth by auto. cbn [Nat.add]. unfold gk.
+      destruct (divmod_flat c i j Hj) as (-> & ->). reflexivity.
+Qed.
+
+(* mupd_all m h: every element read and rewritten once, in row-major order *)
+Lemma mupd_all_spec (m : matrix) (h : nat -> nat -> T -> res T) (g : nat -> nat -> T -> T) :
+  wfM m ->
+  (forall i j x, i < rows m -> j < cols m -> h i j x = Ok (g i j x)) ->
+  exists m', mupd_all m h = Ok m' /\ rows m' = rows m /\ cols m' = cols m /\ wfM m' /\
+             forall i j, i < rows m -> j < cols m ->
+               nth (i * cols m + j) (buf m') zero = g i j (nth (i * cols m + j) (buf m) zero).
+Proof.
+  intros Hwf Hh. unfold mupd_all. set (r := rows m) in *. set (c := cols m) in *.
+  set (gk := fun k => g (k / c) (k mod c) (nth k (buf m) zero)).
+  destruct (double_loop (fun p (s : matrix) => rows s = r /\ cols s = c /\
+              buf s = map gk (seq 0 p) ++ skipn p (buf m)) r c
+              (fun i j s => let* x := mget s i j in let* y := h i j x in mset s i j y) m) as (m' & E & Hr & Hc & Hb).
+  - cbn. auto.
+  - intros i j s Hi Hj (Hr & Hc & Hb). unfold mget, mset. rewrite Hc.
+    assert (Hp : i * c + j < r * c) by now apply flat_lt.
+    assert (Hl1 : length (map gk (seq 0 (i * c + j))) = i * c + j) by now rewrite map_length, seq_length.
+    assert (Hsk : skipn (i * c + j) (buf m) = nth (i * c + j) (buf m) zero :: skipn (S (i * c + j)) (buf m)).
+    { unfold wfM in Hwf. fold r c in Hwf. revert Hp. rewrite <- Hwf. generalize (i * c + j) as p. generalize (buf m) as l.
+      induction l as [|a l IH]; intros [|p] Hp; cbn in *; try lia; auto. apply IH. lia. }
+    assert (Hlen : length (buf s) = r * c).
+    { rewrite Hb, app_length, Hl1, skipn_length. unfold wfM in Hwf. fold r c in Hwf. lia. }
+    assert (Hnth : nth (i * c + j) (buf s) zero = nth (i * c + j) (buf m) zero).
+    { rewrite Hb, app_nth2 by lia. rewrite Hl1, Nat.sub_diag, Hsk. reflexivity. }
+    rewrite (rd_ok _ _ zero) by lia. cbn [bind]. rewrite Hnth.
+    rewrite Hh by auto. cbn [bind]. rewrite upd_ok by lia. cbn [bind].
+    eexists; split; [reflexivity|]. cbn [rows cols buf]. repeat split; auto.
+    rewrite Hb, Hsk, (upd_list_app_mid' _ _ _ _ _ Hl1).
+    replace (i * c + j + 1) with (S (i * c + j)) by lia.
+    rewrite seq_S, map_app. cbn [map]. rewrite <- app_assoc. cbn [app]. cbn [Nat.add].
+    f_equal. f_equal. unfold gk. destruct (divmod_flat c i j Hj) as (-> & ->). reflexivity.
+  - exists m'. split; [exact E|].
+    assert (Hl : length (buf m) = r * c) by exact Hwf.
+    rewrite skipn_all2, app_nil_r in Hb by lia.
+    split; [auto|]. split; [auto|]. split.
+    + unfold wfM. now rewrite Hb, map_length, seq_length, Hr, Hc.
+    + intros i j Hi Hj. rewrite Hb.
+      assert (Hp : i * c + j < r * c) by now apply flat_lt.
+      rewrite (nth_indep _ zero (gk 0)) by now rewrite map_length, seq_length.
+      rewrite map_nth, seq_nth by auto. cbn [Nat.add]. unfold gk.
+      destruct (divmod_flat c i j Hj) as (-> & ->). reflexivity.
+Qed.
+
+End Elementwise.
+
+(* ------------------------------------------------------------------ arithmetic commutes with the dense twin *)
+
+Section BandArith.
+Context {A : Arith}.
+Notation T := (T A).
+Notation banded := (banded A).
+Variable RL : RingLaws A.
+Add Ring ARing2 : (rl_ring A RL).
+
+(* R has the sizes of B and is well formed *)
+Definition like (B R : banded) : Prop := wfB R /\ bn R = bn B /\ bm1 R = bm1 B /\ bm2 R = bm2 B.
+
+Lemma with_compact_like (B : banded) (m : matrix A) (g : nat -> nat -> T) :
+  rows m = bn B -> cols m = bm1 B + bm2 B + 1 -> wfM m ->
+  (forall i s, i < bn B -> s < bm1 B + bm2 B + 1 -> nth (i * (bm1 B + bm2 B + 1) + s) (buf m) zero = g i s) ->
+  like B (with_compact B m) /\
+  forall i s, i < bn B -> s < bm1 B + bm2 B + 1 -> cslot (with_compact B m) i s = g i s.
+Proof.
+  intros Hr Hc Hwf Hg. split.
+  - unfold like, wfB, with_compact; cbn. auto.
+  - intros i s Hi Hs. unfold cslot, with_compact; cbn. now apply Hg.
+Qed.
+
+(* lifting a slot-wise description to the dense twin *)
+Lemma dense_lift1 (B R : banded) (h : T -> T) :
+  like B R -> (forall i s, i < bn B -> s < bm1 B + bm2 B + 1 -> cslot R i s = h (cslot B i s)) ->
+  forall i j, i < bn B ->
+    dense_entry R i j = if in_band (bm1 B) (bm2 B) i j then h (dense_entry B i j) else zero.
+Proof.
+  intros (_ & Hn & H1 & H2) Hs i j Hi. unfold dense_entry. rewrite H1, H2.
+  destruct (in_band (bm1 B) (bm2 B) i j) eqn:E; auto.
+  apply Hs; auto. now apply band_slot_range.
+Qed.
+
+Lemma dense_lift2 (B C R : banded) (h : T -> T -> T) :
+  like B R -> bm1 C = bm1 B -> bm2 C = bm2 B ->
+  (forall i s, i < bn B -> s < bm1 B + bm2 B + 1 -> cslot R i s = h (cslot B i s) (cslot C i s)) ->
+  forall i j, i < bn B ->
+    dense_entry R i j = if in_band (bm1 B) (bm2 B) i j then h (dense_entry B i j) (dense_entry C i j) else zero.
+Proof.
+  intros (_ & Hn & H1 & H2) HC1 HC2 Hs i j Hi. unfold dense_entry. rewrite H1, H2, HC1, HC2.
+  destruct (in_band (bm1 B) (bm2 B) i j) eqn:E; auto.
+  apply Hs; auto. now apply band_slot_range.
+Qed.
+
+(* out of the band both sides are zero when the operation fixes zero *)
+Lemma if_band_zero1 (B : banded) (h : T -> T) i j :
+  h zero = zero ->
+  (if in_band (bm1 B) (bm2 B) i j then h (dense_entry B i j) else zero) = h (dense_entry B i j).
+Proof. intros H0. unfold dense_entry. destruct (in_band _ _ i j); auto. Qed.
+Lemma if_band_zero2 (B C : banded) (h : T -> T -> T) i j :
+  bm1 C = bm1 B -> bm2 C = bm2 B -> h zero zero = zero ->
+  (if in_band (bm1 B) (bm2 B) i j then h (dense_entry B i j) (dense_entry C i j) else zero)
+  = h (dense_entry B i j) (dense_entry C i j).
+Proof. intros H1 H2 H0. unfold dense_entry. rewrite H1, H2. destruct (in_band _ _ i j); auto. Qed.
+
+Ltac band_dims Hwf := destruct Hwf as (HwfM & Hrows & Hcols).
+
+(* by-value unary operators built with mtab *)
+Lemma band_tab1 (B : banded) (h : T -> T) (hres : T -> res T)
+      (F : matrix A -> res (matrix A)) :
+  wfB B -> (forall x, hres x = Ok (h x)) ->
+  (F (compact B) = mtab (rows (compact B)) (cols (compact B))
+                        (fun i j => let* x := mget (compact B) i j in hres x)) ->
+  exists R, (let* c := F (compact B) in Ok (with_compact B c)) = Ok R /\ like B R /\
+    forall i j, i < bn B -> j < bn B ->
+      dense_entry R i j = if in_band (bm1 B) (bm2 B) i j then h (dense_entry B i j) else zero.
+Proof.
+  intros Hwf Hh HF. pose proof Hwf as (HwfM & Hrows & Hcols). rewrite HF, Hrows, Hcols.
+  destruct (mtab_spec (bn B) (bm1 B + bm2 B + 1)
+              (fun i j => let* x := mget (compact B) i j in hres x)
+              (fun i s => h (cslot B i s))) as (m & E & Hr & Hc & Hw & Hm).
+  { intros i s Hi Hs. rewrite mget_ok by auto. cbn [bind]. apply Hh. }
+  rewrite E. cbn [bind]. eexists; split; [reflexivity|].
+  destruct (with_compact_like B m (fun i s => h (cslot B i s)) Hr Hc Hw Hm) as (HL & HS).
+  split; auto. intros i j Hi Hj. now apply dense_lift1.
+Qed.
+
+Lemma band_neg_dense (B : banded) :
+  wfB B -> exists R, band_neg B = Ok R /\ like B R /\
+    forall i j, i < bn B -> j < bn B -> dense_entry R i j = neg (dense_entry B i j).
+Proof.
+  intros Hwf. destruct (band_tab1 B neg (fun x => Ok (neg x)) mneg Hwf (fun x => eq_refl) eq_refl) as (R & E & HL & HD).
+  exists R. split; [exact E|]. split; auto. intros i j Hi Hj.
+  rewrite HD, if_band_zero1 by (auto; ring). reflexivity.
+Qed.
+
+Lemma band_scale_dense (B : banded) (s : T) :
+  wfB B -> exists R, band_scale B s = Ok R /\ like B R /\
+    forall i j, i < bn B -> j < bn B -> dense_entry R i j = mul (dense_entry B i j) s.
+Proof.
+  intros Hwf.
+  destruct (band_tab1 B (fun x => mul x s) (fun x => Ok (mul x s)) (fun m => mscale m s) Hwf (fun x => eq_refl) eq_refl) as (R & E & HL & HD).
+  exists R. split; [exact E|]. split; auto. intros i j Hi Hj.
+  rewrite HD, (if_band_zero1 B (fun x => mul x s)) by (auto; ring). reflexivity.
+Qed.
+
+(* by-value binary operators *)
+Lemma band_tab2 (B C : banded) (h : T -> T -> T) (F : matrix A -> matrix A -> res (matrix A)) :
+  wfB B -> wfB C -> bn C = bn B -> bm1 C = bm1 B -> bm2 C = bm2 B ->
+  (F (compact B) (compact C) =
+     if negb (rows (compact B) =? rows (compact C)) then Panic Guard else
+     if negb (cols (compact B) =? cols (compact C)) then Panic Guard else
+     mtab (rows (compact B)) (cols (compact B))
+          (fun i j => let* x := mget (compact B) i j in let* y := mget (compact C) i j in Ok (h x y))) ->
+  exists R, band_guard3 B C (let* c := F (compact B) (compact C) in Ok (with_compact B c)) = Ok R /\ like B R /\
+    forall i j, i < bn B -> j < bn B ->
+      dense_entry R i j = if in_band (bm1 B) (bm2 B) i j then h (dense_entry B i j) (dense_entry C i j) else zero.
+Proof.
+  intros Hwf HwfC Hn H1 H2 HF.
+  pose proof Hwf as (HwfM & Hrows & Hcols). pose proof HwfC as (HwfMC & HrowsC & HcolsC).
+  unfold band_guard3. rewrite Hn, H1, H2, !Nat.eqb_refl. cbn [negb].
+  rewrite HF, Hrows, Hcols, HrowsC, HcolsC, Hn, H1, H2, !Nat.eqb_refl. cbn [negb].
+  destruct (mtab_spec (bn B) (bm1 B + bm2 B + 1)
+              (fun i j => let* x := mget (compact B) i j in let* y := mget (compact C) i j in Ok (h x y))
+              (fun i s => h (cslot B i s) (cslot C i s))) as (m & E & Hr & Hc & Hw & Hm).
+  { intros i s Hi Hs. rewrite mget_ok by auto. cbn [bind].
+    rewrite mget_ok by (auto; lia). reflexivity. }
+  rewrite E. cbn [bind]. eexists; split; [reflexivity|].
+  destruct (with_compact_like B m (fun i s => h (cslot B i s) (cslot C i s)) Hr Hc Hw Hm) as (HL & HS).
+  split; auto. intros i j Hi Hj. now apply dense_lift2.
+Qed.
+
+Lemma band_add_dense (B C : banded) :
+  wfB B -> wfB C -> bn C = bn B -> bm1 C = bm1 B -> bm2 C = bm2 B ->
+  exists R, band_add B C = Ok R /\ like B R /\
+    forall i j, i < bn B -> j < bn B -> dense_entry R i j = add (dense_entry B i j) (dense_entry C i j).
+Proof.
+  intros Hwf HwfC Hn H1 H2.
+  destruct (band_tab2 B C add madd Hwf HwfC Hn H1 H2 eq_refl) as (R & E & HL & HD).
+  exists R. split; [exact E|]. split; auto. intros i j Hi Hj.
+  rewrite HD, if_band_zero2 by (auto; ring). reflexivity.
+Qed.
+
+Lemma band_sub_dense (B C : banded) :
+  wfB B -> wfB C -> bn C = bn B -> bm1 C = bm1 B -> bm2 C = bm2 B ->
+  exists R, band_sub B C = Ok R /\ like B R /\
+    forall i j, i < bn B -> j < bn B -> dense_entry R i j = sub (dense_entry B i j) (dense_entry C i j).
+Proof.
+  intros Hwf HwfC Hn H1 H2.
+  destruct (band_tab2 B C sub msub Hwf HwfC Hn H1 H2 eq_refl) as (R & E & HL & HD).
+  exists R. split; [exact E|]. split; auto. intros i j Hi Hj.
+  rewrite HD, if_band_zero2 by (auto; ring). reflexivity.
+Qed.
+
+(* compound assignments built with mupd_all *)
+Lemma band_upd1 (B : banded) (g : nat -> nat -> T -> T) (h : nat -> nat -> T -> res T) :
+  wfB B ->
+  (forall i s x, i < bn B -> s < bm1 B + bm2 B + 1 -> h i s x = Ok (g i s x)) ->
+  exists R, (let* c := mupd_all (compact B) h in Ok (with_compact B c)) = Ok R /\ like B R /\
+    forall i s, i < bn B -> s < bm1 B + bm2 B + 1 -> cslot R i s = g i s (cslot B i s).
+Proof.
+  intros Hwf Hh. pose proof Hwf as (HwfM & Hrows & Hcols).
+  destruct (mupd_all_spec (compact B) h g HwfM) as (m & E & Hr & Hc & Hw & Hm).
+  { intros i s x Hi Hs. apply Hh; congruence. }
+  rewrite E. cbn [bind]. eexists; split; [reflexivity|].
+  apply (with_compact_like B m (fun i s => g i s (cslot B i s))); try congruence.
+  intros i s Hi Hs. unfold cslot. rewrite <- Hcols. apply Hm; congruence.
+Qed.
+
+Lemma band_add_assign_dense (B C : banded) :
+  wfB B -> wfB C -> bn C = bn B -> bm1 C = bm1 B -> bm2 C = bm2 B ->
+  exists R, band_add_assign B C = Ok R /\ like B R /\
+    forall i j, i < bn B -> j < bn B -> dense_entry R i j = add (dense_entry B i j) (dense_entry C i j).
+Proof.
+  intros Hwf HwfC Hn H1 H2.
+  pose proof Hwf as (HwfM & Hrows & Hcols). pose proof HwfC as (HwfMC & HrowsC & HcolsC).
+  unfold band_add_assign, band_guard3, madd_assign. rewrite Hn, H1, H2, !Nat.eqb_refl. cbn [negb].
+  rewrite Hrows, Hcols, HrowsC, HcolsC, Hn, H1, H2, !Nat.eqb_refl. cbn [negb].
+  destruct (band_upd1 B (fun i s x => add x (cslot C i s))
+              (fun i j x => let* y := mget (compact C) i j in Ok (add x y)) Hwf) as (R & E & HL & HS).
+  { intros i s x Hi Hs. rewrite mget_ok by (auto; lia). reflexivity. }
+  exists R. split; [exact E|]. split; auto. intros i j Hi Hj.
+  rewrite (dense_lift2 B C R add HL H1 H2) by auto.
+  rewrite if_band_zero2 by (auto; ring). reflexivity.
+Qed.
+
+Lemma band_sub_assign_dense (B C : banded) :
+  wfB B -> wfB C -> bn C = bn B -> bm1 C = bm1 B -> bm2 C = bm2 B ->
+  exists R, band_sub_assign B C = Ok R /\ like B R /\
+    forall i j, i < bn B -> j < bn B -> dense_entry R i j = sub (dense_entry B i j) (dense_entry C i j).
+Proof.
+  intros Hwf HwfC Hn H1 H2.
+  pose proof Hwf as (HwfM & Hrows & Hcols). pose proof HwfC as (HwfMC & HrowsC & HcolsC).
+  unfold band_sub_assign, band_guard3, msub_assign. rewrite Hn, H1, H2, !Nat.eqb_refl. cbn [negb].
+  rewrite Hrows, Hcols, HrowsC, HcolsC, Hn, H1, H2, !Nat.eqb_refl. cbn [negb].
+  destruct (band_upd1 B (fun i s x => sub x (cslot C i s))
+              (fun i j x => let* y := mget (compact C) i j in Ok (sub x y)) Hwf) as (R & E & HL & HS).
+  { intros i s x Hi Hs. rewrite mget_ok by (auto; lia). reflexivity. }
+  exists R. split; [exact E|]. split; auto. intros i j Hi Hj.
+  rewrite (dense_lift2 B C R sub HL H1 H2) by auto.
+  rewrite if_band_zero2 by (auto; ring). reflexivity.
+Qed.
+
+Lemma band_mul_assign_s_dense (B : banded) (s : T) :
+  wfB B -> exists R, band_mul_assign_s B s = Ok R /\ like B R /\
+    forall i j, i < bn B -> j < bn B -> dense_entry R i j = mul (dense_entry B i j) s.
+Proof.
+  intros Hwf. unfold band_mul_assign_s, mmul_assign_scalar.
+  destruct (band_upd1 B (fun _ _ x => mul x s) (fun _ _ x => Ok (mul x s)) Hwf) as (R & E & HL & HS); auto.
+  exists R. split; [exact E|]. split; auto. intros i j Hi Hj.
+  rewrite (dense_lift1 B R (fun x => mul x s) HL) by auto.
+  rewrite (if_band_zero1 B (fun x => mul x s)) by ring. reflexivity.
+Qed.
+
+(* `B += c`, `B -= c`: the constant reaches the stored (in-band) entries; outside the band the twin stays zero *)
+Lemma band_add_assign_s_dense (B : banded) (s : T) :
+  wfB B -> exists R, band_add_assign_s B s = Ok R /\ like B R /\
+    forall i j, i < bn B -> j < bn B ->
+      dense_entry R i j = if in_band (bm1 B) (bm2 B) i j then add (dense_entry B i j) s else zero.
+Proof.
+  intros Hwf. unfold band_add_assign_s, madd_assign_scalar.
+  destruct (band_upd1 B (fun _ _ x => add x s) (fun _ _ x => Ok (add x s)) Hwf) as (R & E & HL & HS); auto.
+  exists R. split; [exact E|]. split; auto. intros i j Hi Hj.
+  now rewrite (dense_lift1 B R (fun x => add x s) HL) by auto.
+Qed.
+
+Lemma band_sub_assign_s_dense (B : banded) (s : T) :
+  wfB B -> exists R, band_sub_assign_s B s = Ok R /\ like B R /\
+    forall i j, i < bn B -> j < bn B ->
+      dense_entry R i j = if in_band (bm1 B) (bm2 B) i j then sub (dense_entry B i j) s else zero.
+Proof.
+  intros Hwf. unfold band_sub_assign_s, msub_assign_scalar.
+  destruct (band_upd1 B (fun _ _ x => sub x s) (fun _ _ x => Ok (sub x s)) Hwf) as (R & E & HL & HS); auto.
+  exists R. split; [exact E|]. split; auto. intros i j Hi Hj.
+  now rewrite (dense_lift1 B R (fun x => sub x s) HL) by auto.
+Qed.
+
+(* division by a nonzero scalar (field laws): entries are multiplied by the inverse *)
+Variable FL : FieldLaws A.
+
+Lemma div_nonzero (s x : T) : eqb s zero = false -> div x s = Ok (mul x (fl_inv A FL s)).
+Proof. intros H. rewrite (fl_div A FL), H. reflexivity. Qed.
+
+Lemma band_div_dense (B : banded) (s : T) :
+  wfB B -> eqb s zero = false -> exists R, band_div B s = Ok R /\ like B R /\
+    forall i j, i < bn B -> j < bn B -> dense_entry R i j = mul (dense_entry B i j) (fl_inv A FL s).
+Proof.
+  intros Hwf Hs.
+  destruct (band_tab1 B (fun x => mul x (fl_inv A FL s)) (fun x => div x s) (fun m => mdiv m s) Hwf
+              (fun x => div_nonzero s x Hs) eq_refl) as (R & E & HL & HD).
+  exists R. split; [exact E|]. split; auto. intros i j Hi Hj.
+  rewrite HD, (if_band_zero1 B (fun x => mul x (fl_inv A FL s))) by (auto; cbn beta; ring). reflexivity.
+Qed.
+
+Lemma band_div_assign_s_dense (B : banded) (s : T) :
+  wfB B -> eqb s zero = false -> exists R, band_div_assign_s B s = Ok R /\ like B R /\
+    forall i j, i < bn B -> j < bn B -> dense_entry R i j = mul (dense_entry B i j) (fl_inv A FL s).
+Proof.
+  intros Hwf Hs. unfold band_div_assign_s, mdiv_assign_scalar.
+  destruct (band_upd1 B (fun _ _ x => mul x (fl_inv A FL s)) (fun _ _ x => div x s) Hwf) as (R & E & HL & HS).
+  { intros; now apply div_nonzero. }
+  exists R. split; [exact E|]. split; auto. intros i j Hi Hj.
+  rewrite (dense_lift1 B R (fun x => mul x (fl_inv A FL s)) HL) by auto.
+  rewrite (if_band_zero1 B (fun x => mul x (fl_inv A FL s))) by (cbn beta; ring). reflexivity.
+Qed.
+
+End BandArith.
+
+(* ------------------------------------------------------------------ statements pinned in Props/C04.v *)
+
+Definition RingLaws_of_Field {A : Arith} (FL : FieldLaws A) : RingLaws A :=
+  {| rl_ring := F_R (fl_field A FL) |}.
+
+Lemma band_arith_dense_lemma {A : Arith} (RL : RingLaws A) (B C : banded A) (s : A) :
+  wfB B -> wfB C -> bn C = bn B -> bm1 C = bm1 B -> bm2 C = bm2 B ->
+  (exists R, band_neg B = Ok R /\ like B R /\
+     forall i j, i < bn B -> j < bn B -> dense_entry R i j = neg (dense_entry B i j)) /\
+  (exists R, band_add B C = Ok R /\ like B R /\
+     forall i j, i < bn B -> j < bn B -> dense_entry R i j = add (dense_entry B i j) (dense_entry C i j)) /\
+  (exists R, band_sub B C = Ok R /\ like B R /\
+     forall i j, i < bn B -> j < bn B -> dense_entry R i j = sub (dense_entry B i j) (dense_entry C i j)) /\
+  (exists R, band_scale B s = Ok R /\ like B R /\
+     forall i j, i < bn B -> j < bn B -> dense_entry R i j = mul (dense_entry B i j) s).
+Proof.
+  intros Hwf HwfC Hn H1 H2. split; [now apply band_neg_dense|].
+  split; [now apply band_add_dense|]. split; [now apply band_sub_dense|]. now apply band_scale_dense.
+Qed.
+
+Lemma band_assign_dense_lemma {A : Arith} (RL : RingLaws A) (B C : banded A) (s : A) :
+  wfB B -> wfB C -> bn C = bn B -> bm1 C = bm1 B -> bm2 C = bm2 B ->
+  (exists R, band_add_assign B C = Ok R /\ like B R /\
+     forall i j, i < bn B -> j < bn B -> dense_entry R i j = add (dense_entry B i j) (dense_entry C i j)) /\
+  (exists R, band_sub_assign B C = Ok R /\ like B R /\
+     forall i j, i < bn B -> j < bn B -> dense_entry R i j = sub (dense_entry B i j) (dense_entry C i j)) /\
+  (exists R, band_mul_assign_s B s = Ok R /\ like B R /\
+     forall i j, i < bn B -> j < bn B -> dense_entry R i j = mul (dense_entry B i j) s) /\
+  (exists R, band_add_assign_s B s = Ok R /\ like B R /\
+     forall i j, i < bn B -> j < bn B ->
+       dense_entry R i j = if in_band (bm1 B) (bm2 B) i j then add (dense_entry B i j) s else zero) /\
+  (exists R, band_sub_assign_s B s = Ok R /\ like B R /\
+     forall i j, i < bn B -> j < bn B ->
+       dense_entry R i j = if in_band (bm1 B) (bm2 B) i j then sub (dense_entry B i j) s else zero).
+Proof.
+  intros Hwf HwfC Hn H1 H2. split; [now apply band_add_assign_dense|].
+  split; [now apply band_sub_assign_dense|]. split; [now apply band_mul_assign_s_dense|].
+  split; [now apply band_add_assign_s_dense|now apply band_sub_assign_s_dense].
+Qed.
+
+Lemma band_div_dense_lemma {A : Arith} (FL : FieldLaws A) (B : banded A) (s : A) :
+  wfB B -> eqb s zero = false ->
+  (exists R, band_div B s = Ok R /\ like B R /\
+     forall i j, i < bn B -> j < bn B -> dense_entry R i j = mul (dense_entry B i j) (fl_inv A FL s)) /\
+  (exists R, band_div_assign_s B s = Ok R /\ like B R /\
+     forall i j, i < bn B -> j < bn B -> dense_entry R i j = mul (dense_entry B i j) (fl_inv A FL s)).
+Proof.
+  intros Hwf Hs. split.
+  - now apply (band_div_dense (RingLaws_of_Field FL) FL).
+  - now apply (band_div_assign_s_dense (RingLaws_of_Field FL) FL).
+Qed.
+
+
+Lemma band_index_spec_lemma m1 m2 i j :
+  (in_band m1 m2 i j = true <-> (i <= j + m1 /\ j <= i + m2)) /\
+  (in_band m1 m2 i j = true -> band_slot m1 i j < m1 + m2 + 1 /\ j + m1 = i + band_slot m1 i j) /\
+  (forall j', in_band m1 m2 i j = true -> in_band m1 m2 i j' = true ->
+              band_slot m1 i j = band_slot m1 i j' -> j = j').
+Proof.
+  split; [apply in_band_iff|]. split.
+  - intros H. split; [now apply (band_slot_range m1 m2)|now apply (band_slot_col m1 m2)].
+  - intros j'. apply band_slot_inj.
+Qed.
+
+(* distinct in-band elements of an n x n band occupy distinct offsets inside the buffer *)
+Lemma band_storage_spec_lemma n m1 m2 i j i' j' :
+  i < n -> i' < n -> in_band m1 m2 i j = true -> in_band m1 m2 i' j' = true ->
+  i * (m1 + m2 + 1) + band_slot m1 i j < n * (m1 + m2 + 1) /\
+  (i * (m1 + m2 + 1) + band_slot m1 i j = i' * (m1 + m2 + 1) + band_slot m1 i' j' -> i = i' /\ j = j').
+Proof.
+  intros Hi Hi' Hb Hb'.
+  pose proof (band_slot_range _ _ _ _ Hb) as Hs. pose proof (band_slot_range _ _ _ _ Hb') as Hs'.
+  split; [now apply flat_lt|].
+  intros E. apply flat_inj in E as (-> & E); auto. split; auto.
+  now apply (band_slot_inj m1 m2 i').
+Qed.
+
+From Coq Require Import QArith Qcanon.
+From OV Require Import Inst.QcInst.
+
+Lemma AQ_RingLaws : RingLaws AQ.
+Proof. constructor. exact Qcrt. Qed.
